@@ -400,6 +400,17 @@ var c15Macros = &vlib.Check{
 // small documents, all permutations: <= 5 blocks - up to three types that refer to each other (properties, array items,
 // or-types, allOf, recursion through optional properties), an ENUM used by a rule, a TAG and a method using them.
 func c15SmallBlocks(r vlib.Rnd) []string {
+	if vlib.Chance(r, 1, 4) {
+		// an URL group with its own Tags and stand-alone methods on the same path (with and without Tags of their own):
+		// who gets which tag does not depend on which block is written first
+		blocks := []string{"TAG @g\n", "URL /m/{id}\n  Tags @g\n  GET\n    200 any\n", "POST /m/{id}\n  200 any\n"}
+		if vlib.Chance(r, 1, 2) {
+			blocks = append(blocks, "DELETE /m/{id}\n  Tags @h\n  200 any\n", "TAG @h // second\n")
+		} else if vlib.Chance(r, 1, 2) {
+			blocks = append(blocks, "PUT /m\n  200 any\n")
+		}
+		return blocks
+	}
 	k := 1 + r.Intn(3)
 	useEnum := vlib.Chance(r, 1, 2)
 	useTag := vlib.Chance(r, 1, 3)
